@@ -29,8 +29,8 @@ class aggregate_node_transformer(ast.NodeTransformer):
     """
 
     def visit_Call(self, node):
-        if type(node.func) is ast.Name:
-            if (node.func.id == "len" or node.func.id == "Count") and (len(node.args) == 1):
+        if type(node.func) is ast.Name and len(node.args) == 1 and len(node.keywords) == 0:
+            if node.func.id == "len" or node.func.id == "Count":
                 # This is a len(sequence) call, which should be turned into a .Count() call.
                 return _generate_count_call(self.visit(node.args[0]))
             elif node.func.id == "Sum":
